@@ -502,7 +502,66 @@ def check_list_iterators(chk, m, L, R, CUR, PAR):
                     chk.ob("M5.left-step", sid, found, "the new position is the node whose left child is the old position",
                            st[0].inst.loc, name)
     chk.expect("M5", "returning segments of the list step functions", n, 3)
+    check_right_iterator(chk, m, L, R, CUR, PAR)
     check_list_setup(chk, m, L, R, CUR, PAR)
+
+
+def check_right_iterator(chk, m, L, R, CUR, PAR):
+    """M5.right-step: what is a spine node is the CALLER's decision (the is_list predicate handed to bintree_iterate_list and kept
+    in iter->filter): with a current node, the right iterator asks that predicate about it; accepted -> hand out curr->left and
+    move to curr->right; rejected -> hand out curr itself (the last element) and end.  M5.right-setup: bintree_iterate_list
+    stores the caller's predicate into iter->filter on every path that selects this iterator."""
+    tid = m.di_by_name.get("bintree_iterator_t") or m.di_by_name.get("bintree_iterator")
+    I = {p_.replace("<anon>.", ""): o for p_, o, s_, t in m.di_leaves(tid)}
+    if "filter" not in I or not m.has_fn("list_right_iterator"):
+        chk.unknown("M5.right-step", "list_right_iterator", "anchor vanished: iter->filter / list_right_iterator")
+        return
+    FIL = I["filter"]
+    fn = m.fn("list_right_iterator")
+    curp = paths.mkptr(("arg", 0), CUR)
+    is_filter = lambda x: isinstance(x[1], tuple) and x[1][0] == "*" and strip_casts(x[1][1])[0] == "ld" and strip_casts(x[1][1])[1] == paths.mkptr(("arg", 0), FIL)
+    n = 0
+    for p in paths.enumerate_paths(fn, m, loop_bound=1):
+        if paths.is_assert_fail_path(p) or p.ret is None:
+            continue
+        pid = "list_right_iterator " + "->".join(b.lstrip("%") for b in p.blocks)
+        curs = [e.val for e in p.events if e.kind == "load" and e.ptr == curp]
+        cur = curs[0] if curs else None
+        r = strip_casts(p.ret)
+        st = [e for e in p.events if e.kind == "store" and e.ptr == curp]
+        if cur is None or null_fact(p, cur) is True:
+            continue        # at the end already
+        n += 1
+        truth = call_truth(p, is_filter)
+        asked = [(c, t) for c, t in truth.items() if c[2] and strip_casts(c[2][0])[:2] == cur[:2]]
+        if not asked:
+            chk.ob("M5.right-step", pid, False,
+                   "with a current node the step is decided by something other than the caller's predicate iter->filter(curr): a node "
+                   "the caller does not regard as part of the spine is descended into (its children are handed out as list elements), or "
+                   "a spine node is handed out as an element", p.ret_inst.loc, fn.name)
+            continue
+        if asked[0][1]:
+            def at(x, off):
+                x = strip_casts(x)
+                if x[0] != "ld":
+                    return False
+                root, o, var = ptr_parts(x[1])
+                return root[:2] == cur[:2] and o == off and not var
+            ok = at(r, L) and len(st) == 1 and at(st[0].val, R)
+            chk.ob("M5.right-step", pid, ok, "spine node: hands out curr->left and moves to curr->right", p.ret_inst.loc, fn.name)
+        else:
+            ok = r[:2] == cur[:2] and len(st) == 1 and st[0].val == ("null",)
+            chk.ob("M5.right-step", pid, ok, "not a spine node: it is the last element, handed out itself, and the iteration ends", p.ret_inst.loc, fn.name)
+    chk.expect("M5", "steps of the right iterator from a current node", n, 2)
+    fs = m.fn("bintree_iterate_list")
+    for p in paths.enumerate_paths(fs, m, loop_bound=1):
+        if paths.is_assert_fail_path(p):
+            continue
+        if not any(e.kind == "store" and e.val == ("fn", "list_right_iterator") for e in p.events):
+            continue
+        ok = any(e.kind == "store" and e.ptr == paths.mkptr(("arg", 0), FIL) and strip_casts(e.val) == ("arg", 2) for e in p.events)
+        chk.ob("M5.right-setup", "bintree_iterate_list " + "->".join(b.lstrip("%") for b in p.blocks)[:100], ok,
+               "the caller's predicate is stored in iter->filter before the right iterator is selected", p.ret_inst.loc, fs.name)
 
 
 def call_truth(p, is_call):
@@ -595,6 +654,45 @@ def eq_fact2(p, a, b):
     return None
 
 
+def check_sibling_state(chk, m):
+    """M6: bintree_iterate_post_order hands out its first node either by calling post_order_iterator, or - on a short cut of its
+    own - after writing every iterator member that post_order_iterator writes whenever IT hands out a node (bintree_free reads
+    iter.parent after each step; a short cut that leaves a member stale gives the caller the previous walk's value)."""
+    if not (m.has_fn("post_order_iterator") and m.has_fn("bintree_iterate_post_order")):
+        chk.unknown("M6.sibling-state", "bintree_iterate_post_order", "anchor vanished")
+        return
+    step = m.functions["post_order_iterator"]
+    must = None
+    for p in paths.enumerate_paths(step, m, loop_bound=1):
+        if paths.is_assert_fail_path(p) or p.ret is None or p.ret == ("null",):
+            continue
+        w = set(ptr_parts(e.ptr)[1] for e in p.events if e.kind == "store" and ptr_parts(e.ptr)[0] == ("arg", 0) and not ptr_parts(e.ptr)[2])
+        must = w if must is None else (must & w)
+    if not must:
+        chk.unknown("M6.sibling-state", "post_order_iterator", "no iterator member is written on every node-returning path")
+        return
+    fn = m.functions["bintree_iterate_post_order"]
+    chk.note_fn(fn)
+    n = 0
+    for p in paths.enumerate_paths(fn, m, loop_bound=1):
+        if paths.is_assert_fail_path(p) or p.ret is None:
+            continue
+        r = strip_casts(p.ret)
+        pid = "bintree_iterate_post_order " + "->".join(b.lstrip("%") for b in p.blocks)[:120]
+        n += 1
+        if r == ("null",) or (r[0] == "call" and r[1] == "post_order_iterator"):
+            chk.ob("M6.sibling-state", pid, True, "first node comes from post_order_iterator (or there is none)", p.ret_inst.loc, fn.name)
+            continue
+        w = set(ptr_parts(e.ptr)[1] for e in p.events if e.kind == "store" and ptr_parts(e.ptr)[0] == ("arg", 0) and not ptr_parts(e.ptr)[2])
+        missing = sorted(must - w)
+        chk.ob("M6.sibling-state", pid, not missing,
+               "a node handed out without post_order_iterator leaves the iterator as post_order_iterator would" if not missing else
+               "this path hands out a node (%s) without calling post_order_iterator and without writing iterator member(s) at offset %s, "
+               "which post_order_iterator writes whenever it hands out a node: the caller (bintree_free patches iter.parent's link) "
+               "reads a stale value" % (fmt(p.ret)[:30], ", ".join("+%d" % o for o in missing)), p.ret_inst.loc, fn.name)
+    chk.expect("M6", "paths of bintree_iterate_post_order", n, 1)
+
+
 def run(chk):
     chk.explanation = (
         "bintree.c (not built by the suite) is compiled and analysed on loop-free segments of its IR: the thread/un-thread "
@@ -620,3 +718,5 @@ def run(chk):
     check_post_order(chk, m, L, R, CUR, PAR)
     check_free(chk, m, L, R, CUR, PAR)
     check_list_iterators(chk, m, L, R, CUR, PAR)
+    chk.rule("M6", "bintree_iterate_post_order: a node handed out without post_order_iterator leaves every iterator member that post_order_iterator writes on such a return written")
+    check_sibling_state(chk, m)
